@@ -14,7 +14,7 @@ import (
 func init() {
 	Register(&Property{
 		ID: "C14",
-		Explanation: "Decides lock discipline and sharing shapes: (R14.1) every field that some method writes while holding a mutex of its object is accessed everywhere else under that mutex (exclusively for writes), or from a function all of whose callers hold it, or on an object allocated in the same function; no method re-acquires a lock of its receiver that it already holds; (R14.2) no registry getter that can run on a request goroutine writes a registry field without a lock, unless the getter is already called in the sequential set-up of the first server; (R14.3) a function literal run by go/errgroup.Go writes captured state only through an index that is private to its loop iteration; (R14.4) the check group's result is read only after doneCh and written only by the consumer; (R14.5) a visited set is created only inside package graph and lives only in a context value; (R14.6) an object handed to a concurrently running sub-check is not written afterwards; (R14.7) a visited set is installed only below a single check/expand, never by code that fans out several checks; (R14.8) request bodies are decoded into fresh values. " +
+		Explanation: "Decides lock discipline and sharing shapes: (R14.1) every field that some method writes while holding a mutex of its object is accessed everywhere else under that mutex (exclusively for writes), or from a function all of whose callers hold it, or on an object allocated in the same function; no method re-acquires a lock of its receiver that it already holds; (R14.2) no registry getter that can run on a request goroutine writes a registry field without a lock, unless the getter is already called in the sequential set-up of the first server; (R14.3) a function literal run by go/errgroup.Go writes captured state only through an index that is private to its loop iteration; (R14.4) the check group's result is read only after doneCh and written only by the consumer; (R14.5) a visited set is created only inside package graph and lives only in a context value; (R14.6) an object handed to a concurrently running sub-check is not written afterwards; (R14.7) a visited set is installed only below a single check/expand, never by code that fans out several checks; (R14.8) request bodies are decoded into fresh values; (R14.9) the request-serving singletons (engines, handlers, mappers, persister, traverser) hold no caching/coalescing field and no container written after construction. " +
 			"Not decided: absence of data races in general, result equality under concurrency.",
 		Assumptions: []string{"mutex-protected fields are only touched through the struct's own package (checked: the accesses found are all in the declaring package)"},
 		Run:         runC14,
@@ -58,6 +58,7 @@ func runC14(c *Ctx) {
 	r146(c)
 	r147(c)
 	r085(c, "R14.8", []string{"internal/check", "internal/relationtuple", "internal/expand"})
+	singletonState(c, "R14.9")
 }
 
 // callOnlyReach: functions reachable through calls (not mere references).
